@@ -564,6 +564,7 @@ func c04Input(c *Ctx, r *Report) {
 		r.check("C04.INPUT", fnName(fn)+": has a loop over the supplied keys and a loop over the declared fields", fn.Pos(), false, fmt.Sprintf("key loop found=%v, declared-field loop found=%v", keyLoop != nil, fieldLoop != nil))
 		return
 	}
+	r.check("C04.INPUT", fnName(fn)+": has a loop over the supplied keys and a loop over the declared fields", fn.Pos(), true, "")
 	// error returns
 	type eret struct {
 		rt *ssa.Return
